@@ -62,6 +62,9 @@ CHECKS = {
  "C12": ("marker-based reference-session monitor (provenance of every visible text: disk vs editor, per document and version) over recorded LSP sessions",
          "Exploration of the same session space as C11 with disk texts that differ from everything the editor sends: diagnostics markers and documentSymbol outlines of every workspace document must come from the editor text for opened documents (also when reached only through an include) and from disk for never-opened ones.",
          "markers are unique class names per (document, origin, version)", "5/C12"),
+ "C04": ("grammar-directed sentence generation with forced rule coverage + typed-accessor walk monitor (positive); Earley-decided token mutants (negative); corpus",
+         "Exploration: the reference grammar (models/grammar.bnf = syntax.md + rule comments) is read at run time; quick ~7 500 / thorough ~2.5e5 random derivations that cycle through every alternative must parse with zero errors and expose every node-denoting constituent, with its exact token span and in source order, to a walk that uses only the typed accessors; 8-20 token mutants per sentence are classified by an independent Earley recogniser (with the trailing-separator allowance) and non-sentences must yield an error; the 39 LLVM files parse cleanly. Eleven by-the-letter deviations of the deliberately lenient / LLVM-conformant parser are listed as known findings.",
+         "grammar.bnf transcription rules are in DESIGN.md 5/C04; token classes come from reflex.rs; ambiguous constructs of the documented grammar (foreach initialiser, dangling else) are not demanded", "5/C04"),
 }
 NOT_YET = "check under construction in this session; not claimed yet"
 
